@@ -48,6 +48,13 @@ func pickGrammar(r *rand.Rand, idx int, usable bool, cfg gen.RandCfg) *spec.Gram
 	if usable && idx%50 == 7 {
 		return gen.Big(r)
 	}
+	if usable && idx%7 == 2 {
+		return gen.LongRules(r)
+	}
+	if usable && idx%7 == 5 {
+		// rules of 10-12 symbols and a dozen or more rules
+		return gen.Rich(r, gen.RichCfg{LongRhs: true})
+	}
 	if usable {
 		return gen.RandUsable(r, cfg)
 	}
